@@ -19,6 +19,7 @@ pub mod c13;
 pub mod c14;
 pub mod c15;
 pub mod c16;
+pub mod structural;
 
 pub fn all() -> Vec<Box<dyn Prop>> {
     vec![
